@@ -58,13 +58,9 @@ impl RawBlock {
                                 TxLegacy {
                                     nonce: tx.nonce.into(),
                                     to: match tx.to {
-                                        Some(addr) => {
-                                            if addr.address.is_zero() {
-                                                TxKind::Create
-                                            } else {
-                                                TxKind::Call(addr.address.into())
-                                            }
-                                        }
+                                        // A stored `to` is always a call target, the zero address included
+                                        // (creations are stored without one)
+                                        Some(addr) => TxKind::Call(addr.address.into()),
                                         None => TxKind::Create,
                                     },
                                     value: U256::from(tx.value.uint),
